@@ -60,13 +60,13 @@ type hrStep struct {
 }
 
 type hrScenario struct {
-	Name    string   `json:"name"`
-	NP      int      `json:"np"`
-	Prop    string   `json:"prop"`    // property the oracles of this scenario report under
-	Raw     bool     `json:"raw"`     // no predictions: run the steps, evaluate the oracles only
-	Observe int      `json:"observe"` // after the steps: watch the pools for this many rebuild intervals (heal oracle)
+	Name    string    `json:"name"`
+	NP      int       `json:"np"`
+	Prop    string    `json:"prop"`    // property the oracles of this scenario report under
+	Raw     bool      `json:"raw"`     // no predictions: run the steps, evaluate the oracles only
+	Observe int       `json:"observe"` // after the steps: watch the pools for this many rebuild intervals (heal oracle)
 	Init    *hrExpect `json:"init"`
-	Steps   []hrStep `json:"steps"`
+	Steps   []hrStep  `json:"steps"`
 }
 
 type hrJob struct {
@@ -89,32 +89,35 @@ type hrViolation struct {
 }
 
 type hrResult struct {
-	Replayed    int           `json:"replayed"`
-	Conforming  int           `json:"conforming"`
-	Steps       int           `json:"steps"`
-	Compares    int           `json:"compares"`
-	Probes      int           `json:"probes"`
-	ProbeOK     int           `json:"probe_ok"`
-	ProbeErr    int           `json:"probe_err"`
-	Traffic     int           `json:"traffic"`
-	TrafficMust int           `json:"traffic_must"`
-	Unrealised  int           `json:"unrealised"`
-	Retries     int           `json:"retries"`
-	Drift       []string      `json:"drift"`
-	DriftCount  int           `json:"drift_count"`
-	Violations  []hrViolation `json:"violations"`
-	KnownHits   []string      `json:"known_hits"`
-	Hooks       bool          `json:"hooks"`
-	Samples     []string      `json:"samples"`
-	MaxLeaveMs  int64         `json:"max_leave_ms"`
-	MaxHealMs   int64         `json:"max_heal_ms"`
-	MaxErrMs    int64         `json:"max_err_ms"`
-	FreeRuns    int           `json:"free_runs"`
-	FreeEvents  int           `json:"free_events"`
-	FreeNotes   []string      `json:"free_notes"`
-	Sessions    int           `json:"sessions"`
-	Per         []hrPer       `json:"per"`
-	CallPanics  []string      `json:"call_panics"`
+	Replayed      int           `json:"replayed"`
+	Conforming    int           `json:"conforming"`
+	Steps         int           `json:"steps"`
+	Compares      int           `json:"compares"`
+	Probes        int           `json:"probes"`
+	ProbeOK       int           `json:"probe_ok"`
+	ProbeErr      int           `json:"probe_err"`
+	Traffic       int           `json:"traffic"`
+	TrafficMust   int           `json:"traffic_must"`
+	Unrealised    int           `json:"unrealised"`
+	Retries       int           `json:"retries"`
+	Drift         []string      `json:"drift"`
+	DriftCount    int           `json:"drift_count"`
+	Violations    []hrViolation `json:"violations"`
+	KnownHits     []string      `json:"known_hits"`
+	Hooks         bool          `json:"hooks"`
+	Samples       []string      `json:"samples"`
+	MaxLeaveMs    int64         `json:"max_leave_ms"`
+	MaxHealMs     int64         `json:"max_heal_ms"`
+	MaxErrMs      int64         `json:"max_err_ms"`
+	FreeRuns      int           `json:"free_runs"`
+	FreeEvents    int           `json:"free_events"`
+	FreeNotes     []string      `json:"free_notes"`
+	Sessions      int           `json:"sessions"`
+	Per           []hrPer       `json:"per"`
+	CallPanics    []string      `json:"call_panics"`
+	HarnessPanics []string      `json:"harness_panics"`
+	ScenariosDone bool          `json:"scenarios_done"`
+	AllDone       bool          `json:"all_done"`
 }
 
 type hrPer struct {
@@ -156,7 +159,7 @@ func (c *hrCountLn) Accept() (net.Conn, error) {
 
 type hrEcho struct{}
 
-func (hrEcho) OnNewStream(s *Stream) { _ = s.SetCallbacks(&hrEchoStream{s: s}) }
+func (hrEcho) OnNewStream(s *Stream)    { _ = s.SetCallbacks(&hrEchoStream{s: s}) }
 func (hrEcho) OnShutdown(reason string) {}
 
 type hrEchoStream struct{ s *Stream }
@@ -207,9 +210,9 @@ type hrWorld struct {
 	evCur int // first event not yet consumed by a wait
 
 	// oracle bookkeeping
-	notified map[*Session]uint64 // server sessions with an HR of the current listener round not yet acknowledged
-	faultGen int64               // odd while a step that may kill sessions is running
-	someDead int32               // the model says some pool's session is dead / the manager is closed
+	notified       map[*Session]uint64 // server sessions with an HR of the current listener round not yet acknowledged
+	faultGen       int64               // odd while a step that may kill sessions is running
+	someDead       int32               // the model says some pool's session is dead / the manager is closed
 	lastTimerStart time.Time
 	hotEnd         time.Time
 	pickInHot      map[int]bool
@@ -245,14 +248,14 @@ type hrWorld struct {
 }
 
 var (
-	hrReg      sync.RWMutex
-	hrBySM     = map[*SessionManager]*hrWorld{}
-	hrByL      = map[*Listener]*hrWorld{}
-	hrCounter  int64
-	hrOnce     sync.Once
-	hrOrigSM   sessionManagerHandler
-	hrOrigAck  protocolHandler
-	hrHooksOn  bool
+	hrReg       sync.RWMutex
+	hrBySM      = map[*SessionManager]*hrWorld{}
+	hrByL       = map[*Listener]*hrWorld{}
+	hrCounter   int64
+	hrOnce      sync.Once
+	hrOrigSM    sessionManagerHandler
+	hrOrigAck   protocolHandler
+	hrHooksOn   bool
 	hrGlobalSeq int64
 	hrPanicMu   sync.Mutex
 	hrPanics    []string
@@ -416,7 +419,12 @@ func (w *hrWorld) startListener() (*Listener, *hrCountLn, error) {
 
 // the server end of client session id: the not yet bound, preferably open session of the same name in a listener
 func (w *hrWorld) bindServer(id int, d time.Duration) error {
+	w.mu.Lock()
 	c := w.cli[id]
+	w.mu.Unlock()
+	if c == nil {
+		return fmt.Errorf("session %d is not registered", id)
+	}
 	deadline := time.Now().Add(d)
 	for {
 		var found *Session
@@ -424,20 +432,30 @@ func (w *hrWorld) bindServer(id int, d time.Duration) error {
 			if l == nil {
 				continue
 			}
+			var cands []*Session
 			l.sessions.sessionMu.Lock()
 			for s := range l.sessions.data {
-				if _, taken := w.idSrv[s]; taken {
-					continue
-				}
-				if s.name == c.name && (found == nil || !s.IsClosed()) {
-					found = s
+				if s.name == c.name {
+					cands = append(cands, s)
 				}
 			}
 			l.sessions.sessionMu.Unlock()
+			w.mu.Lock()
+			for _, s := range cands {
+				if _, taken := w.idSrv[s]; taken {
+					continue
+				}
+				if found == nil || !s.IsClosed() {
+					found = s
+				}
+			}
+			w.mu.Unlock()
 		}
 		if found != nil {
+			w.mu.Lock()
 			w.srv[id] = found
 			w.idSrv[found] = id
+			w.mu.Unlock()
 			return nil
 		}
 		if time.Now().After(deadline) {
@@ -448,6 +466,13 @@ func (w *hrWorld) bindServer(id int, d time.Duration) error {
 }
 
 func (w *hrWorld) srvOf(id int) string {
+	w.mu.Lock()
+	defer w.mu.Unlock()
+	return w.srvOfLocked(id)
+}
+
+// caller holds w.mu
+func (w *hrWorld) srvOfLocked(id int) string {
 	s := w.srv[id]
 	if s == nil {
 		return "?"
@@ -561,7 +586,7 @@ func (w *hrWorld) snapshot(n int) hrSnap {
 			sn.C2S = append(sn.C2S, []int{})
 			continue
 		}
-		x := hrSessX{Epoch: int(c.epochID), Srv: w.srvOf(id), Alive: !c.IsClosed(), Pool: c.sessionID + 1, Sstate: "def"}
+		x := hrSessX{Epoch: int(c.epochID), Srv: w.srvOfLocked(id), Alive: !c.IsClosed(), Pool: c.sessionID + 1, Sstate: "def"}
 		sv := w.srv[id]
 		if sv != nil {
 			if st, ok := sst[sv]; ok {
@@ -745,6 +770,7 @@ func (w *hrWorld) startTraffic() {
 	w.trafWg.Add(1)
 	go func() {
 		defer w.trafWg.Done()
+		defer w.goroutinePanic("traffic")
 		n := 0
 		for {
 			select {
@@ -778,6 +804,19 @@ func (w *hrWorld) startTraffic() {
 	}()
 }
 
+// a panic in a helper goroutine of the harness must not take the process (and every other scenario's result) down
+func (w *hrWorld) goroutinePanic(who string) {
+	if r := recover(); r != nil {
+		buf := make([]byte, 6000)
+		buf = buf[:runtime.Stack(buf, false)]
+		hrPanicMu.Lock()
+		hrHarnessPanics = append(hrHarnessPanics, fmt.Sprintf("%s goroutine of %s: %v\n%s", who, w.name, r, buf))
+		hrPanicMu.Unlock()
+	}
+}
+
+var hrHarnessPanics []string
+
 // ---------------------------------------------------------------- monitor: oracles that do not depend on the model
 
 // polls the listener and the manager every few ms: (a) the moment the listener reports the hot restart done, every live
@@ -788,6 +827,7 @@ func (w *hrWorld) startMonitor(known []string) {
 	w.monWg.Add(1)
 	go func() {
 		defer w.monWg.Done()
+		defer w.goroutinePanic("monitor")
 		lastL := defaultState
 		var lSince, mSince time.Time
 		seen := map[string]bool{}
@@ -894,22 +934,24 @@ func (w *hrWorld) startMonitor(known []string) {
 // ---------------------------------------------------------------- scenario execution
 
 type hrOutcome struct {
-	conform    bool
-	drift      string
-	slip       bool
-	violations []hrViolation
-	known      []string
-	steps      int
-	compares   int
-	probes     int
-	probeOK    int
-	probeErr   int
-	traffic    int64
-	trafMust   int64
-	sessions   int
-	maxLeave   time.Duration
-	maxHeal    time.Duration
-	maxErr     time.Duration
+	setupFailed  bool
+	harnessPanic string
+	conform      bool
+	drift        string
+	slip         bool
+	violations   []hrViolation
+	known        []string
+	steps        int
+	compares     int
+	probes       int
+	probeOK      int
+	probeErr     int
+	traffic      int64
+	trafMust     int64
+	sessions     int
+	maxLeave     time.Duration
+	maxHeal      time.Duration
+	maxErr       time.Duration
 }
 
 const (
@@ -1248,6 +1290,7 @@ func hrRunScenario(sc *hrScenario, job *hrJob) (out hrOutcome) {
 	w, err := hrNewWorld(sc.Name, sc.NP, rebuild, true)
 	if err != nil {
 		out.drift = "cannot set up: " + err.Error()
+		out.setupFailed = true
 		return
 	}
 	defer func() {
@@ -1304,437 +1347,437 @@ func hrRunScenario(sc *hrScenario, job *hrJob) (out hrOutcome) {
 	lateAckClass := false
 	oracleOnly := false // the code has left the predicted states: the rest of the behaviour is used as a schedule only
 	runSteps := func() {
-	for si := range sc.Steps {
-		st := sc.Steps[si]
-		x := st.X
-		if oracleOnly {
-			x = nil
-		}
-		rawMode := sc.Raw || oracleOnly
-		if atomic.LoadInt32(&w.abort) == 1 {
-			return
-		}
-		out.steps++
-		w.prevX, w.curX = nil, nil
-		if !rawMode {
-			w.prevX = prev
-			w.curX = x
-		}
-		switch st.A {
-		case "NewServerStarts":
-			l, cl, err := w.startListener()
-			if err != nil {
-				drifted(si, "cannot start the new listener: "+err.Error())
+		for si := range sc.Steps {
+			st := sc.Steps[si]
+			x := st.X
+			if oracleOnly {
+				x = nil
+			}
+			rawMode := sc.Raw || oracleOnly
+			if atomic.LoadInt32(&w.abort) == 1 {
 				return
 			}
-			w.newL, w.newLn = l, cl
-		case "OldServerExits":
-			w.killBegin()
-			w.oldClosed = true
-			w.oldL.Close()
-			for id, c := range w.cli {
-				if w.srvOf(id) == "old" {
-					cc := c
-					w.waitFor(hrWaitLimit, func() bool { return cc.IsClosed() })
+			out.steps++
+			w.prevX, w.curX = nil, nil
+			if !rawMode {
+				w.prevX = prev
+				w.curX = x
+			}
+			switch st.A {
+			case "NewServerStarts":
+				l, cl, err := w.startListener()
+				if err != nil {
+					drifted(si, "cannot start the new listener: "+err.Error())
+					return
 				}
-			}
-			w.killEnd()
-		case "SessDies":
-			w.killBegin()
-			if s := w.srv[st.I]; s != nil {
-				s.Close()
-			}
-			if c := w.cli[st.I]; c != nil {
-				w.waitFor(hrWaitLimit, func() bool { return c.IsClosed() })
-			}
-			w.killEnd()
-		case "LHotRestart":
-			w.gapTimer()
-			// every open session of the old server that is in the default state has to be told (C16: moves EVERY session)
-			var must []*Session
-			w.oldL.mu.Lock()
-			w.oldL.sessions.sessionMu.Lock()
-			for s := range w.oldL.sessions.data {
-				if s.state == defaultState && !s.IsClosed() {
-					must = append(must, s)
+				w.newL, w.newLn = l, cl
+			case "OldServerExits":
+				w.killBegin()
+				w.oldClosed = true
+				w.oldL.Close()
+				for id, c := range w.cli {
+					if w.srvOf(id) == "old" {
+						cc := c
+						w.waitFor(hrWaitLimit, func() bool { return cc.IsClosed() })
+					}
 				}
-			}
-			w.oldL.sessions.sessionMu.Unlock()
-			w.oldL.mu.Unlock()
-			w.mu.Lock()
-			w.notified = map[*Session]uint64{}
-			for _, s := range must {
-				w.notified[s] = uint64(st.E)
-			}
-			w.mu.Unlock()
-			w.lHotSince = time.Now()
-			err := w.oldL.HotRestart(uint64(st.E))
-			w.lastTimerStart = time.Now()
-			if err != nil {
-				drifted(si, "HotRestart returned "+err.Error())
-				return
-			}
-			// every live session of the old server that is in the default state must be told (C16: moves EVERY session)
-			if x != nil && prev != nil {
-				for i, ps := range prev.Sess {
-					if i < len(prev.S2C) && ps.Alive && ps.Srv == "old" && ps.Sstate == "def" {
-						c := w.cli[i+1]
-						want := len(x.S2C[i])
-						ok := w.waitFor(hrWaitLimit, func() bool {
-							w.mu.Lock()
-							defer w.mu.Unlock()
-							return len(w.hrq[c]) >= want
-						})
-						if !ok {
-							w.viol(sc, &out, "not-notified", fmt.Sprintf("HotRestart(%d): live session %d of the old server (default state) was not sent the restart event within %v", st.E, i+1, hrWaitLimit))
-							return
+				w.killEnd()
+			case "SessDies":
+				w.killBegin()
+				if s := w.srv[st.I]; s != nil {
+					s.Close()
+				}
+				if c := w.cli[st.I]; c != nil {
+					w.waitFor(hrWaitLimit, func() bool { return c.IsClosed() })
+				}
+				w.killEnd()
+			case "LHotRestart":
+				w.gapTimer()
+				// every open session of the old server that is in the default state has to be told (C16: moves EVERY session)
+				var must []*Session
+				w.oldL.mu.Lock()
+				w.oldL.sessions.sessionMu.Lock()
+				for s := range w.oldL.sessions.data {
+					if s.state == defaultState && !s.IsClosed() {
+						must = append(must, s)
+					}
+				}
+				w.oldL.sessions.sessionMu.Unlock()
+				w.oldL.mu.Unlock()
+				w.mu.Lock()
+				w.notified = map[*Session]uint64{}
+				for _, s := range must {
+					w.notified[s] = uint64(st.E)
+				}
+				w.mu.Unlock()
+				w.lHotSince = time.Now()
+				err := w.oldL.HotRestart(uint64(st.E))
+				w.lastTimerStart = time.Now()
+				if err != nil {
+					drifted(si, "HotRestart returned "+err.Error())
+					return
+				}
+				// every live session of the old server that is in the default state must be told (C16: moves EVERY session)
+				if x != nil && prev != nil {
+					for i, ps := range prev.Sess {
+						if i < len(prev.S2C) && ps.Alive && ps.Srv == "old" && ps.Sstate == "def" {
+							c := w.cli[i+1]
+							want := len(x.S2C[i])
+							ok := w.waitFor(hrWaitLimit, func() bool {
+								w.mu.Lock()
+								defer w.mu.Unlock()
+								return len(w.hrq[c]) >= want
+							})
+							if !ok {
+								w.viol(sc, &out, "not-notified", fmt.Sprintf("HotRestart(%d): live session %d of the old server (default state) was not sent the restart event within %v", st.E, i+1, hrWaitLimit))
+								return
+							}
 						}
 					}
 				}
-			}
-		case "InjectHR":
-			c := w.cli[st.I]
-			w.mu.Lock()
-			n0 := len(w.hrq[c])
-			w.mu.Unlock()
-			if s := w.srv[st.I]; s != nil {
-				_ = s.hotRestart(uint64(st.E), typeHotRestart)
-			}
-			w.waitFor(hrWaitLimit, func() bool { w.mu.Lock(); defer w.mu.Unlock(); return len(w.hrq[c]) > n0 })
-		case "InjectAck":
-			sv := w.srv[st.I]
-			w.mu.Lock()
-			n0 := len(w.ackq[sv])
-			w.mu.Unlock()
-			if c := w.cli[st.I]; c != nil {
-				_ = c.hotRestart(uint64(st.E), typeHotRestartAck)
-			}
-			w.waitFor(hrWaitLimit, func() bool { w.mu.Lock(); defer w.mu.Unlock(); return len(w.ackq[sv]) > n0 })
-		case "MOnHR":
-			c := w.cli[st.I]
-			var p *sessionManagerHotRestartParams
-			ok := w.waitFor(hrWaitLimit, func() bool {
+			case "InjectHR":
+				c := w.cli[st.I]
 				w.mu.Lock()
-				defer w.mu.Unlock()
-				if len(w.hrq[c]) == 0 {
-					return false
+				n0 := len(w.hrq[c])
+				w.mu.Unlock()
+				if s := w.srv[st.I]; s != nil {
+					_ = s.hotRestart(uint64(st.E), typeHotRestart)
 				}
-				p = w.hrq[c][0]
-				return true
-			})
-			if !ok {
-				drifted(si, "no restart event is waiting on this session")
-				return
-			}
-			starting := w.mstate() != hotRestartState
-			if starting {
-				w.gapTimer()
-			}
-			w.sm.RLock()
-			foreign := w.sm.state == hotRestartState && w.sm.epoch != p.epoch
-			w.sm.RUnlock()
-			var before hrSnap
-			if foreign {
-				before = w.snapshot(len(prev.Sess))
-			} else {
-				// classifiers of two findings: the handler looks neither at whether the manager has been closed nor at
-				// whether the session the event was received on is still open
-				hit := false
-				if w.closeDone != nil {
-					atomic.StoreInt32(&w.afterClose, 1)
-					if hrHas(job.Known, "hr-after-close") && !sc.Raw {
-						out.known = append(out.known, "hr-after-close")
-						hit = true
+				w.waitFor(hrWaitLimit, func() bool { w.mu.Lock(); defer w.mu.Unlock(); return len(w.hrq[c]) > n0 })
+			case "InjectAck":
+				sv := w.srv[st.I]
+				w.mu.Lock()
+				n0 := len(w.ackq[sv])
+				w.mu.Unlock()
+				if c := w.cli[st.I]; c != nil {
+					_ = c.hotRestart(uint64(st.E), typeHotRestartAck)
+				}
+				w.waitFor(hrWaitLimit, func() bool { w.mu.Lock(); defer w.mu.Unlock(); return len(w.ackq[sv]) > n0 })
+			case "MOnHR":
+				c := w.cli[st.I]
+				var p *sessionManagerHotRestartParams
+				ok := w.waitFor(hrWaitLimit, func() bool {
+					w.mu.Lock()
+					defer w.mu.Unlock()
+					if len(w.hrq[c]) == 0 {
+						return false
 					}
+					p = w.hrq[c][0]
+					return true
+				})
+				if !ok {
+					drifted(si, "no restart event is waiting on this session")
+					return
+				}
+				starting := w.mstate() != hotRestartState
+				if starting {
+					w.gapTimer()
 				}
 				w.sm.RLock()
-				again := starting && w.sm.epoch == p.epoch && p.epoch != 0
+				foreign := w.sm.state == hotRestartState && w.sm.epoch != p.epoch
 				w.sm.RUnlock()
-				if again {
-					// the manager has already run a round for this epoch and starts another one
-					atomic.StoreInt32(&w.sameEpoch, 1)
-					if hrHas(job.Known, "same-epoch-round") && !sc.Raw {
-						out.known = append(out.known, "same-epoch-round")
-						hit = true
+				var before hrSnap
+				if foreign {
+					before = w.snapshot(len(prev.Sess))
+				} else {
+					// classifiers of two findings: the handler looks neither at whether the manager has been closed nor at
+					// whether the session the event was received on is still open
+					hit := false
+					if w.closeDone != nil {
+						atomic.StoreInt32(&w.afterClose, 1)
+						if hrHas(job.Known, "hr-after-close") && !sc.Raw {
+							out.known = append(out.known, "hr-after-close")
+							hit = true
+						}
+					}
+					w.sm.RLock()
+					again := starting && w.sm.epoch == p.epoch && p.epoch != 0
+					w.sm.RUnlock()
+					if again {
+						// the manager has already run a round for this epoch and starts another one
+						atomic.StoreInt32(&w.sameEpoch, 1)
+						if hrHas(job.Known, "same-epoch-round") && !sc.Raw {
+							out.known = append(out.known, "same-epoch-round")
+							hit = true
+						}
+					}
+					if c.IsClosed() {
+						atomic.StoreInt32(&w.onClosed, 1)
+						if hrHas(job.Known, "hr-on-closed-session") && !sc.Raw {
+							out.known = append(out.known, "hr-on-closed-session")
+							hit = true
+						}
+					}
+					if hit {
+						return
 					}
 				}
-				if c.IsClosed() {
-					atomic.StoreInt32(&w.onClosed, 1)
-					if hrHas(job.Known, "hr-on-closed-session") && !sc.Raw {
-						out.known = append(out.known, "hr-on-closed-session")
-						hit = true
-					}
-				}
-				if hit {
-					return
-				}
-			}
-			w.mu.Lock()
-			w.hrq[c] = w.hrq[c][1:]
-			w.mu.Unlock()
-			if starting {
-				w.killBegin() // the first event closes the reserve pools of the previous restart
-				// the code starts its 2 s timer inside the handler, before it connects: take the earlier instant
-				w.mHotSince = time.Now()
-			}
-			hrOrigSM(w.sm, p) // the real handleSessionManagerHotRestart with the received parameters
-			if starting {
-				w.killEnd()
-				w.lastTimerStart = time.Now()
-			}
-			if foreign {
-				after := w.snapshot(len(prev.Sess))
-				before.S2C, after.S2C, before.C2S, after.C2S = nil, nil, nil, nil // the event itself has been consumed
-				b1, _ := json.Marshal(before)
-				b2, _ := json.Marshal(after)
-				if string(b1) != string(b2) || w.sessCount() != len(prev.Sess) && !sc.Raw {
-					w.viol(sc, &out, "foreign-epoch-effect", fmt.Sprintf("a restart event of epoch %d received while the manager handles epoch %d changed the state: before %s after %s", p.epoch, before.MEpoch, b1, b2))
-				}
-			}
-		case "LAck":
-			sv := w.srv[st.I]
-			var m hrAckMsg
-			ok := w.waitFor(hrWaitLimit, func() bool {
 				w.mu.Lock()
-				defer w.mu.Unlock()
-				if len(w.ackq[sv]) == 0 {
-					return false
+				w.hrq[c] = w.hrq[c][1:]
+				w.mu.Unlock()
+				if starting {
+					w.killBegin() // the first event closes the reserve pools of the previous restart
+					// the code starts its 2 s timer inside the handler, before it connects: take the earlier instant
+					w.mHotSince = time.Now()
 				}
-				m = w.ackq[sv][0]
-				return true
-			})
-			if !ok {
-				drifted(si, "no acknowledgement is waiting on this session")
-				return
-			}
-			ep := hrEpochOf(m.buf)
-			w.oldL.mu.Lock()
-			lst, lep, cnt0 := w.oldL.state, w.oldL.epoch, w.oldL.hotRestartAckCount
-			w.oldL.mu.Unlock()
-			sst0 := sv.state
-			if ep == lep && lst != hotRestartState {
-				// classifier of the finding "late-ack": an acknowledgement of the listener's current epoch is handled while
-				// the listener is not in the hot-restart state
-				lateAckClass = true
-				atomic.StoreInt32(&w.lateAck, 1)
-				if hrHas(job.Known, "late-ack") && !sc.Raw {
-					out.known = append(out.known, "late-ack")
+				hrOrigSM(w.sm, p) // the real handleSessionManagerHotRestart with the received parameters
+				if starting {
+					w.killEnd()
+					w.lastTimerStart = time.Now()
+				}
+				if foreign {
+					after := w.snapshot(len(prev.Sess))
+					before.S2C, after.S2C, before.C2S, after.C2S = nil, nil, nil, nil // the event itself has been consumed
+					b1, _ := json.Marshal(before)
+					b2, _ := json.Marshal(after)
+					if string(b1) != string(b2) || w.sessCount() != len(prev.Sess) && !sc.Raw {
+						w.viol(sc, &out, "foreign-epoch-effect", fmt.Sprintf("a restart event of epoch %d received while the manager handles epoch %d changed the state: before %s after %s", p.epoch, before.MEpoch, b1, b2))
+					}
+				}
+			case "LAck":
+				sv := w.srv[st.I]
+				var m hrAckMsg
+				ok := w.waitFor(hrWaitLimit, func() bool {
+					w.mu.Lock()
+					defer w.mu.Unlock()
+					if len(w.ackq[sv]) == 0 {
+						return false
+					}
+					m = w.ackq[sv][0]
+					return true
+				})
+				if !ok {
+					drifted(si, "no acknowledgement is waiting on this session")
 					return
 				}
-			}
-			w.mu.Lock()
-			w.ackq[sv] = w.ackq[sv][1:]
-			if w.notified[sv] == ep {
-				delete(w.notified, sv)
-			}
-			w.mu.Unlock()
-			_, _, _ = hrOrigAck(sv, m.hdr, m.buf) // the real handleHotRestartAck
-			w.oldL.mu.Lock()
-			lst1, lep1, cnt1 := w.oldL.state, w.oldL.epoch, w.oldL.hotRestartAckCount
-			w.oldL.mu.Unlock()
-			if ep != lep && (lst1 != lst || lep1 != lep || cnt1 != cnt0 || sv.state != sst0) {
-				w.viol(sc, &out, "foreign-epoch-effect", fmt.Sprintf("an acknowledgement of epoch %d while the listener announces %d changed the listener: count %d -> %d, session state %s -> %s", ep, lep, cnt0, cnt1, hrStateName[sst0], hrStateName[sv.state]))
-			}
-			if cnt1 < 0 {
-				detail := fmt.Sprintf("acknowledgement of epoch %d handled with the listener in state %s: hotRestartAckCount is %d, session marked %s", ep, hrStateName[lst], cnt1, hrStateName[sv.state])
-				if lateAckClass && hrHas(job.Known, "late-ack") {
-					out.known = append(out.known, "late-ack: "+detail)
-				} else {
-					w.viol(sc, &out, "ack-count-negative", detail)
-				}
-			}
-		case "LCheckTick":
-			if !w.waitFor(hrLeaveLimit, func() bool { return w.lstate() == hotRestartDoneState }) {
-				if w.lstate() == hotRestartState {
-					w.viol(sc, &out, "listener-stuck", "every notified session has acknowledged but the listener did not report the hot restart done")
-				} else {
-					drifted(si, "the listener did not reach the done state")
-				}
-				return
-			}
-			w.noteLeave(&w.lHotSince)
-			// done must mean: every notified live session has acknowledged
-			w.mu.Lock()
-			var missing []int
-			for sv := range w.notified {
-				if !sv.IsClosed() {
-					missing = append(missing, w.idSrv[sv])
-				}
-			}
-			w.mu.Unlock()
-			if len(missing) > 0 {
-				sort.Ints(missing)
-				detail := fmt.Sprintf("the listener reports the hot restart done while notified sessions %v have not acknowledged", missing)
-				if lateAckClass && hrHas(job.Known, "late-ack") {
-					out.known = append(out.known, "late-ack: "+detail)
-				} else {
-					w.viol(sc, &out, "done-without-acks", detail)
-				}
-			}
-		case "LTimeout":
-			if !w.waitFor(hrLeaveLimit, func() bool { return w.lstate() != hotRestartState }) {
-				w.viol(sc, &out, "listener-stuck", fmt.Sprintf("the listener is still in the hot-restart state %v after HotRestart", time.Since(w.lHotSince).Round(time.Millisecond)))
-				return
-			}
-			w.noteLeave(&w.lHotSince)
-		case "MCheckDone":
-			if !w.waitFor(hrLeaveLimit, func() bool { return w.mstate() != hotRestartState }) {
-				w.viol(sc, &out, "manager-stuck", "every pool has been swapped but the manager did not leave the hot-restart state")
-				return
-			}
-			w.noteLeave(&w.mHotSince)
-			w.hotEnd = time.Now()
-			// completion: every pool is on a fresh live session of the announced epoch
-			w.sm.RLock()
-			ep := w.sm.epoch
-			var bad []string
-			for p := 0; p < w.np; p++ {
-				s := w.sm.pools[p].Session()
-				rp := w.sm.reservePools[p]
-				if s.epochID != ep {
-					bad = append(bad, fmt.Sprintf("pool %d is on a session of epoch %d", p+1, s.epochID))
-				}
-				if rp != nil && rp.Session() == s {
-					bad = append(bad, fmt.Sprintf("pool %d still uses its old session", p+1))
-				}
-			}
-			w.sm.RUnlock()
-			if len(bad) > 0 {
-				w.viol(sc, &out, "completed-not-swapped", fmt.Sprintf("the manager completed the hand-over to epoch %d but %s", ep, strings.Join(bad, ", ")))
-			}
-			// acknowledgements are sent on the old sessions
-			if x != nil {
-				for i, xs := range x.Sess {
-					if xs.Alive && len(x.C2S[i]) > 0 {
-						sv := w.srv[i+1]
-						want := len(x.C2S[i])
-						w.waitFor(hrWaitLimit, func() bool { w.mu.Lock(); defer w.mu.Unlock(); return len(w.ackq[sv]) >= want })
+				ep := hrEpochOf(m.buf)
+				w.oldL.mu.Lock()
+				lst, lep, cnt0 := w.oldL.state, w.oldL.epoch, w.oldL.hotRestartAckCount
+				w.oldL.mu.Unlock()
+				sst0 := sv.state
+				if ep == lep && lst != hotRestartState {
+					// classifier of the finding "late-ack": an acknowledgement of the listener's current epoch is handled while
+					// the listener is not in the hot-restart state
+					lateAckClass = true
+					atomic.StoreInt32(&w.lateAck, 1)
+					if hrHas(job.Known, "late-ack") && !sc.Raw {
+						out.known = append(out.known, "late-ack")
+						return
 					}
 				}
-			}
-		case "MTimeout":
-			w.killBegin()
-			ok := w.waitFor(hrLeaveLimit, func() bool { return w.mstate() != hotRestartState })
-			w.killEnd()
-			if !ok {
-				w.viol(sc, &out, "manager-stuck", fmt.Sprintf("the session manager is still in the hot-restart state %v after the first restart event", time.Since(w.mHotSince).Round(time.Millisecond)))
-				return
-			}
-			w.noteLeave(&w.mHotSince)
-			w.hotEnd = time.Now()
-		case "WLost":
-			p := st.I - 1
-			if !w.waitEv(hrWaitLimit, func(e hrEv) bool { return e.Ev == "WLost" && int(e.A) == p }) {
-				time.Sleep(40 * time.Millisecond)
-			}
-			if x != nil && x.MState == "hot" {
-				w.pickInHot[p] = true
-			}
-		case "WPick":
-			p := st.I - 1
-			if !w.waitEv(hrWaitLimit, func(e hrEv) bool { return e.Ev == "WPick" && int(e.A) == p }) {
-				if w.pickInHot[p] {
-					if d := 650*time.Millisecond - time.Since(w.hotEnd); d > 0 {
-						time.Sleep(d)
+				w.mu.Lock()
+				w.ackq[sv] = w.ackq[sv][1:]
+				if w.notified[sv] == ep {
+					delete(w.notified, sv)
+				}
+				w.mu.Unlock()
+				_, _, _ = hrOrigAck(sv, m.hdr, m.buf) // the real handleHotRestartAck
+				w.oldL.mu.Lock()
+				lst1, lep1, cnt1 := w.oldL.state, w.oldL.epoch, w.oldL.hotRestartAckCount
+				w.oldL.mu.Unlock()
+				if ep != lep && (lst1 != lst || lep1 != lep || cnt1 != cnt0 || sv.state != sst0) {
+					w.viol(sc, &out, "foreign-epoch-effect", fmt.Sprintf("an acknowledgement of epoch %d while the listener announces %d changed the listener: count %d -> %d, session state %s -> %s", ep, lep, cnt0, cnt1, hrStateName[sst0], hrStateName[sv.state]))
+				}
+				if cnt1 < 0 {
+					detail := fmt.Sprintf("acknowledgement of epoch %d handled with the listener in state %s: hotRestartAckCount is %d, session marked %s", ep, hrStateName[lst], cnt1, hrStateName[sv.state])
+					if lateAckClass && hrHas(job.Known, "late-ack") {
+						out.known = append(out.known, "late-ack: "+detail)
+					} else {
+						w.viol(sc, &out, "ack-count-negative", detail)
 					}
-				} else {
-					time.Sleep(25 * time.Millisecond)
 				}
-			}
-			w.pickInHot[p] = false
-		case "WRebuild":
-			p := st.I - 1
-			creates := x != nil && prev != nil && len(x.Sess) > len(prev.Sess)
-			if !creates {
-				if !w.waitEv(hrWaitLimit, func(e hrEv) bool { return e.Ev == "WSkip" && int(e.A) == p }) {
-					time.Sleep(rebuild + 60*time.Millisecond)
+			case "LCheckTick":
+				if !w.waitFor(hrLeaveLimit, func() bool { return w.lstate() == hotRestartDoneState }) {
+					if w.lstate() == hotRestartState {
+						w.viol(sc, &out, "listener-stuck", "every notified session has acknowledged but the listener did not report the hot restart done")
+					} else {
+						drifted(si, "the listener did not reach the done state")
+					}
+					return
 				}
-			}
-		case "WExit":
-		case "Sleep":
-			time.Sleep(time.Duration(st.I) * time.Millisecond)
-		case "SMClose":
-			w.killBegin()
-			w.closeDone = make(chan struct{})
-			go func() { w.sm.Close(); close(w.closeDone) }()
-		case "SMCloseFin":
-			select {
-			case <-w.closeDone:
-				atomic.StoreInt64(&w.countAtClose, int64(w.sessCount()))
-				atomic.StoreInt32(&w.closeReturned, 1)
-			case <-time.After(hrLeaveLimit):
-				w.viol(sc, &out, "close-hangs", fmt.Sprintf("SessionManager.Close did not return within %v", hrLeaveLimit))
+				w.noteLeave(&w.lHotSince)
+				// done must mean: every notified live session has acknowledged
+				w.mu.Lock()
+				var missing []int
+				for sv := range w.notified {
+					if !sv.IsClosed() {
+						missing = append(missing, w.idSrv[sv])
+					}
+				}
+				w.mu.Unlock()
+				if len(missing) > 0 {
+					sort.Ints(missing)
+					detail := fmt.Sprintf("the listener reports the hot restart done while notified sessions %v have not acknowledged", missing)
+					if lateAckClass && hrHas(job.Known, "late-ack") {
+						out.known = append(out.known, "late-ack: "+detail)
+					} else {
+						w.viol(sc, &out, "done-without-acks", detail)
+					}
+				}
+			case "LTimeout":
+				if !w.waitFor(hrLeaveLimit, func() bool { return w.lstate() != hotRestartState }) {
+					w.viol(sc, &out, "listener-stuck", fmt.Sprintf("the listener is still in the hot-restart state %v after HotRestart", time.Since(w.lHotSince).Round(time.Millisecond)))
+					return
+				}
+				w.noteLeave(&w.lHotSince)
+			case "MCheckDone":
+				if !w.waitFor(hrLeaveLimit, func() bool { return w.mstate() != hotRestartState }) {
+					w.viol(sc, &out, "manager-stuck", "every pool has been swapped but the manager did not leave the hot-restart state")
+					return
+				}
+				w.noteLeave(&w.mHotSince)
+				w.hotEnd = time.Now()
+				// completion: every pool is on a fresh live session of the announced epoch
+				w.sm.RLock()
+				ep := w.sm.epoch
+				var bad []string
+				for p := 0; p < w.np; p++ {
+					s := w.sm.pools[p].Session()
+					rp := w.sm.reservePools[p]
+					if s.epochID != ep {
+						bad = append(bad, fmt.Sprintf("pool %d is on a session of epoch %d", p+1, s.epochID))
+					}
+					if rp != nil && rp.Session() == s {
+						bad = append(bad, fmt.Sprintf("pool %d still uses its old session", p+1))
+					}
+				}
+				w.sm.RUnlock()
+				if len(bad) > 0 {
+					w.viol(sc, &out, "completed-not-swapped", fmt.Sprintf("the manager completed the hand-over to epoch %d but %s", ep, strings.Join(bad, ", ")))
+				}
+				// acknowledgements are sent on the old sessions
+				if x != nil {
+					for i, xs := range x.Sess {
+						if xs.Alive && len(x.C2S[i]) > 0 {
+							sv := w.srv[i+1]
+							want := len(x.C2S[i])
+							w.waitFor(hrWaitLimit, func() bool { w.mu.Lock(); defer w.mu.Unlock(); return len(w.ackq[sv]) >= want })
+						}
+					}
+				}
+			case "MTimeout":
+				w.killBegin()
+				ok := w.waitFor(hrLeaveLimit, func() bool { return w.mstate() != hotRestartState })
+				w.killEnd()
+				if !ok {
+					w.viol(sc, &out, "manager-stuck", fmt.Sprintf("the session manager is still in the hot-restart state %v after the first restart event", time.Since(w.mHotSince).Round(time.Millisecond)))
+					return
+				}
+				w.noteLeave(&w.mHotSince)
+				w.hotEnd = time.Now()
+			case "WLost":
+				p := st.I - 1
+				if !w.waitEv(hrWaitLimit, func(e hrEv) bool { return e.Ev == "WLost" && int(e.A) == p }) {
+					time.Sleep(40 * time.Millisecond)
+				}
+				if x != nil && x.MState == "hot" {
+					w.pickInHot[p] = true
+				}
+			case "WPick":
+				p := st.I - 1
+				if !w.waitEv(hrWaitLimit, func(e hrEv) bool { return e.Ev == "WPick" && int(e.A) == p }) {
+					if w.pickInHot[p] {
+						if d := 650*time.Millisecond - time.Since(w.hotEnd); d > 0 {
+							time.Sleep(d)
+						}
+					} else {
+						time.Sleep(25 * time.Millisecond)
+					}
+				}
+				w.pickInHot[p] = false
+			case "WRebuild":
+				p := st.I - 1
+				creates := x != nil && prev != nil && len(x.Sess) > len(prev.Sess)
+				if !creates {
+					if !w.waitEv(hrWaitLimit, func(e hrEv) bool { return e.Ev == "WSkip" && int(e.A) == p }) {
+						time.Sleep(rebuild + 60*time.Millisecond)
+					}
+				}
+			case "WExit":
+			case "Sleep":
+				time.Sleep(time.Duration(st.I) * time.Millisecond)
+			case "SMClose":
+				w.killBegin()
+				w.closeDone = make(chan struct{})
+				go func() { w.sm.Close(); close(w.closeDone) }()
+			case "SMCloseFin":
+				select {
+				case <-w.closeDone:
+					atomic.StoreInt64(&w.countAtClose, int64(w.sessCount()))
+					atomic.StoreInt32(&w.closeReturned, 1)
+				case <-time.After(hrLeaveLimit):
+					w.viol(sc, &out, "close-hangs", fmt.Sprintf("SessionManager.Close did not return within %v", hrLeaveLimit))
+					return
+				}
+				w.killEnd()
+			default:
+				drifted(si, "unknown action")
 				return
 			}
-			w.killEnd()
-		default:
-			drifted(si, "unknown action")
-			return
-		}
-		if rawMode {
-			w.registerAny()
-			continue
-		}
-		regLimit := hrWaitLimit
-		firstSeen = time.Now().Add(time.Second)
-		if st.A == "MOnHR" {
-			// the real handler has returned: the session it creates is there now or never
-			regLimit = 50 * time.Millisecond
-			firstSeen = time.Now()
-		}
-		if msg := w.registerNew(prev, x, &out, regLimit); msg != "" {
-			drifted(si, msg)
-			if out.slip {
-				return
+			if rawMode {
+				w.registerAny()
+				continue
 			}
-			oracleOnly = true
-			w.registerAny()
-			continue
-		}
-		firstSeen = time.Time{}
-		// compare at settled points: the next step is one the harness drives (or the behaviour ends)
-		if x != nil && x.Quiet {
-			var d string
-			firstSeen = time.Time{}
-			ok := w.waitFor(1500*time.Millisecond, func() bool {
-				d = w.diff(x, w.snapshot(len(x.Sess)))
-				if d != "" && firstSeen.IsZero() {
-					firstSeen = time.Now()
-				}
-				return d == ""
-			})
-			out.compares++
-			if !ok {
-				drifted(si, d)
+			regLimit := hrWaitLimit
+			firstSeen = time.Now().Add(time.Second)
+			if st.A == "MOnHR" {
+				// the real handler has returned: the session it creates is there now or never
+				regLimit = 50 * time.Millisecond
+				firstSeen = time.Now()
+			}
+			if msg := w.registerNew(prev, x, &out, regLimit); msg != "" {
+				drifted(si, msg)
 				if out.slip {
 					return
 				}
 				oracleOnly = true
+				w.registerAny()
 				continue
 			}
-			dead := int32(0)
-			for p := 0; p < w.np; p++ {
-				if !x.Sess[x.Cur[p]-1].Alive || x.Closed != "no" {
-					dead = 1
+			firstSeen = time.Time{}
+			// compare at settled points: the next step is one the harness drives (or the behaviour ends)
+			if x != nil && x.Quiet {
+				var d string
+				firstSeen = time.Time{}
+				ok := w.waitFor(1500*time.Millisecond, func() bool {
+					d = w.diff(x, w.snapshot(len(x.Sess)))
+					if d != "" && firstSeen.IsZero() {
+						firstSeen = time.Now()
+					}
+					return d == ""
+				})
+				out.compares++
+				if !ok {
+					drifted(si, d)
+					if out.slip {
+						return
+					}
+					oracleOnly = true
+					continue
+				}
+				dead := int32(0)
+				for p := 0; p < w.np; p++ {
+					if !x.Sess[x.Cur[p]-1].Alive || x.Closed != "no" {
+						dead = 1
+					}
+				}
+				atomic.StoreInt32(&w.someDead, dead)
+				if n := w.sessCount(); n != len(x.Sess) {
+					detail := fmt.Sprintf("%d sessions have been established, the model has %d: a session was created that no step of the model creates", n, len(x.Sess))
+					if sc.Prop == "C17" {
+						w.viol(sc, &out, "extra-session", detail)
+					} else {
+						drifted(si, detail)
+					}
+					return
+				}
+				w.probeAll(sc, x, &out, fmt.Sprintf("after step %d %s", si, hrLabel(st)))
+				if len(out.violations) > 0 {
+					return
 				}
 			}
-			atomic.StoreInt32(&w.someDead, dead)
-			if n := w.sessCount(); n != len(x.Sess) {
-				detail := fmt.Sprintf("%d sessions have been established, the model has %d: a session was created that no step of the model creates", n, len(x.Sess))
-				if sc.Prop == "C17" {
-					w.viol(sc, &out, "extra-session", detail)
-				} else {
-					drifted(si, detail)
-				}
-				return
-			}
-			w.probeAll(sc, x, &out, fmt.Sprintf("after step %d %s", si, hrLabel(st)))
-			if len(out.violations) > 0 {
-				return
-			}
+			prev = x
 		}
-		prev = x
-	}
 	}
 	runSteps()
 	// ---- end of the behaviour
@@ -1900,8 +1943,20 @@ func TestVS_HotRestart(t *testing.T) {
 		job.RebuildMs = 60
 	}
 	hrInstall()
-	res := hrResult{Drift: []string{}, Violations: []hrViolation{}, KnownHits: []string{}, Samples: []string{}, FreeNotes: []string{}, Hooks: hrHooksOn, Per: []hrPer{}}
+	res := hrResult{Drift: []string{}, Violations: []hrViolation{}, KnownHits: []string{}, Samples: []string{}, FreeNotes: []string{}, Hooks: hrHooksOn, Per: []hrPer{}, HarnessPanics: []string{}, CallPanics: []string{}}
 	var mu sync.Mutex
+	// the result file is rewritten after every scenario: if the process dies (a fatal error of the runtime cannot be
+	// recovered) the scenarios finished so far are not lost and the runner repeats only the others
+	writeOut := func() {
+		b, err := json.Marshal(res)
+		if err != nil {
+			return
+		}
+		tmp := os.Getenv("VS_OUT") + ".tmp"
+		if os.WriteFile(tmp, b, 0o644) == nil {
+			_ = os.Rename(tmp, os.Getenv("VS_OUT"))
+		}
+	}
 	sem := make(chan struct{}, job.Parallel)
 	var wg sync.WaitGroup
 	for i := range job.Scenarios {
@@ -1912,17 +1967,35 @@ func TestVS_HotRestart(t *testing.T) {
 			defer wg.Done()
 			defer func() { <-sem }()
 			var out hrOutcome
-			for attempt := 0; attempt < 3; attempt++ {
-				out = hrRunScenario(sc, &job)
-				if !(out.slip && len(out.violations) == 0) {
+			for attempt := 0; attempt < 4; attempt++ {
+				out = hrRunScenarioSafe(sc, &job)
+				again := out.slip && len(out.violations) == 0
+				if out.setupFailed || out.harnessPanic != "" {
+					again = true // nothing was learnt about the code: run it again
+				}
+				if !again || attempt == 3 {
 					break
 				}
 				mu.Lock()
 				res.Retries++
 				mu.Unlock()
+				time.Sleep(50 * time.Millisecond)
 			}
 			mu.Lock()
 			defer mu.Unlock()
+			defer writeOut()
+			// self-test of the runner's crash tolerance: die once, after the third finished scenario
+			if marker := os.Getenv("VS_HR_CRASH_ONCE"); marker != "" && res.Replayed == 3 {
+				if _, err := os.Stat(marker); err != nil {
+					_ = os.WriteFile(marker, []byte("x"), 0o644)
+					writeOut()
+					fmt.Println("fatal error: simulated crash of the harness process (VS_HR_CRASH_ONCE)")
+					os.Exit(3)
+				}
+			}
+			if out.harnessPanic != "" {
+				res.HarnessPanics = append(res.HarnessPanics, sc.Name+": "+out.harnessPanic)
+			}
 			res.Replayed++
 			res.Per = append(res.Per, hrPer{Name: sc.Name, Conform: out.conform, Slip: out.slip && len(out.violations) == 0,
 				Drift: out.drift != "" && !out.slip, Steps: out.steps})
@@ -1968,14 +2041,38 @@ func TestVS_HotRestart(t *testing.T) {
 		res.Violations = append(res.Violations, hrViolation{Property: prop, Kind: "panic", Scenario: "(process)", Detail: pmsg, Steps: []hrStep{}})
 	}
 	hrPanicMu.Unlock()
-	hrRunFree(&job, &res)
+	res.ScenariosDone = true
+	mu.Lock()
+	writeOut()
+	mu.Unlock()
+	func() {
+		defer func() {
+			if r := recover(); r != nil {
+				res.FreeNotes = append(res.FreeNotes, fmt.Sprintf("recorder panicked: %v", r))
+			}
+		}()
+		hrRunFree(&job, &res)
+	}()
 	hrPanicMu.Lock()
 	res.CallPanics = append([]string{}, hrCallPanics...)
+	res.HarnessPanics = append(res.HarnessPanics, hrHarnessPanics...)
 	hrPanicMu.Unlock()
-	b, _ := json.Marshal(res)
-	if err := os.WriteFile(os.Getenv("VS_OUT"), b, 0o644); err != nil {
-		t.Fatal(err)
-	}
+	res.AllDone = true
+	mu.Lock()
+	writeOut()
+	mu.Unlock()
+}
+
+// hrRunScenario with everything recovered, including the set-up
+func hrRunScenarioSafe(sc *hrScenario, job *hrJob) (out hrOutcome) {
+	defer func() {
+		if r := recover(); r != nil {
+			buf := make([]byte, 6000)
+			buf = buf[:runtime.Stack(buf, false)]
+			out = hrOutcome{harnessPanic: fmt.Sprintf("%v\n%s", r, buf)}
+		}
+	}()
+	return hrRunScenario(sc, job)
 }
 
 // one trace line (NDJSON) for specs/Trace_HotRestart.tla
